@@ -821,3 +821,9 @@ V('c15-twin-timer-get', 'C15', 'C15.CONTAINERS', LSF,
   "        if addr in self._timers:\n            self._timers.pop(addr).cancel()", "        timer = self._timers.pop(addr, None)\n        if timer is not None:\n            timer.cancel()", expect='silent')
 V('c15-twin-queue-truthy', 'C15', 'C15.CONTAINERS', MQF,
   "        if len(self.queue):\n            # If there are still groups in the queue that are not ready to send", "        if self.queue:\n            # If there are still groups in the queue that are not ready to send", expect='silent')
+
+V('c19-fast-path-known-type', 'C19', 'C19.CASCADE', NM,
+  "    if len(type_) > 256:\n        # https://datatracker.ietf.org/doc/html/rfc6763#section-7.2\n        raise BadTypeInNameException(\"Full name (%s) must be > 256 bytes\" % type_)\n",
+  "    if len(type_) > 256:\n        # https://datatracker.ietf.org/doc/html/rfc6763#section-7.2\n        raise BadTypeInNameException(\"Full name (%s) must be > 256 bytes\" % type_)\n    if type_.count('.') == 3 and type_.startswith('_') and type_.endswith(_TCP_PROTOCOL_LOCAL_TRAILER):\n        return type_\n")
+V('c19-hyphen-check-dropped', 'C19', 'C19.CASCADE', NM,
+  "        if '--' in test_service_name:\n            raise BadTypeInNameException(\"Service name (%s) must not contain '--'\" % test_service_name)\n\n", "")
